@@ -237,6 +237,12 @@ emit_func_convert_and_escape = template(
                 return __markup()
 
         if target is not None:
+            # The translation function might not have given us a string
+            if type(target) is encoded:
+                target = decode(target)
+            elif not isinstance(target, str):
+                target = str(target)
+
             try:
                 escape = __re_needs_escape(target) is not None
             except TypeError:
